@@ -30,6 +30,11 @@ def is_alloc_term(f, alloc, t, closures):
         x = peel(alt)
         if x[0] == "call" and x[2] == alloc.name:
             continue
+        # Option<id>: None (QoS 0) or Some(allocator's result) -- `cond.then(|| alloc())` and `if cond { Some(alloc()) } else { None }`
+        if x[0] == "agg" and x[1] == "adt" and x[2] == "core::option::Option":
+            if x[3] == "None" or (x[3] == "Some" and x[5] and is_alloc_term(f, alloc, x[5][0], closures)):
+                continue
+            return False
         # (bool::then(cond, closure) as Some).0 with a closure returning the allocator's result
         if x[0] == "field" and x[1][0] == "downcast" and x[1][2] == "Some":
             inner = peel(x[1][1])
